@@ -107,4 +107,130 @@ Proof.
   rewrite Hs. eauto.
 Qed.
 
+
+(* converting one element that is a mapping: a nested data-class construction one level deeper *)
+Lemma kid_res_dict n k kvs :
+  kid_res (S n) k (PDict kvs) = init_dataclass (transform re W n) 0 C o k (PDict kvs).
+Proof. reflexivity. Qed.
+
+Opaque transform.
+
+(* one node, given what its link field parses to *)
+Lemma init_node n k caller v vs :
+  o_override caller = false -> d <? k + 1 = false ->
+  init_dataclass (transform re W (S n)) 0 C caller k (PDict [(PStr "v", PInt v); (PStr "link", PList vs)]) =
+  match snd (transform re W (S n) o (k + 1) list_link (PList vs) no_errs) with
+  | Ok r => Ok (PInst 0 [("v", PInt v); ("link", r)])
+  | Raise e => Raise (parse_err_at KType (PStr "link"))
+  | Diverge => Diverge | OutOfFuel => OutOfFuel | Unmodelled => Unmodelled
+  end.
+Proof.
+  intros Hov Hk.
+  assert (Hd0 : (d =? 0) = false) by lia.
+  pose proof (tr_int n (k + 1) v no_errs) as Hint.
+  set (tr := transform re W (S n)) in *.
+  unfold init_dataclass, nested_options. change (c_options C) with o. rewrite Hov.
+  cbv -[tr list_link Z.ltb Z.eqb Z.add].
+  rewrite Hd0, Hk. cbv -[tr list_link Z.ltb Z.eqb Z.add].
+  cbv -[tr list_link Z.ltb Z.eqb Z.add] in Hint. rewrite Hint.
+  cbv -[tr list_link Z.ltb Z.eqb Z.add]. rewrite ?Hd0, ?Hk. cbv -[tr list_link Z.ltb Z.eqb Z.add].
+  match goal with |- context [tr ?a ?b list_link ?c ?st] =>
+    destruct (tr a b list_link c st) as [s1 [r|ex| | |]] end;
+    cbv -[tr list_link Z.ltb Z.eqb Z.add]; reflexivity.
+Qed.
+
+Lemma init_too_deep tr k caller data :
+  o_override caller = false -> d <? k + 1 = true ->
+  init_dataclass tr 0 C caller k data = Raise (parse_err KDepth).
+Proof.
+  intros Hov Hk. unfold init_dataclass, nested_options. change (c_options C) with o. rewrite Hov.
+  cbn [o_override o opts_with_depth negb andb]. rewrite depth_check_o, Hk. reflexivity.
+Qed.
+
+Lemma Forall2_map_in {A B} (P : B -> B -> Prop) (f g : A -> B) l :
+  (forall x, In x l -> P (f x) (g x)) -> Forall2 P (map f l) (map g l).
+Proof.
+  induction l as [|y r IH]; intros H; cbn [map]; constructor.
+  - apply H. left; reflexivity.
+  - apply IH. intros x Hx. apply H. right; exact Hx.
+Qed.
+
+Lemma max_height_cons y r : max_height (y :: r) = Nat.max (height y) (max_height r).
+Proof. reflexivity. Qed.
+
+Lemma max_height_ge kids x : In x kids -> (height x <= max_height kids)%nat.
+Proof.
+  induction kids as [|y r IH]; intros Hin; [destruct Hin|]. cbn [max_height fold_right].
+  destruct Hin as [->|Hin]; [lia|]. specialize (IH Hin). unfold max_height in IH. lia.
+Qed.
+Lemma max_height_attained kids : (0 < max_height kids)%nat -> exists x, In x kids /\ height x = max_height kids.
+Proof.
+  induction kids as [|y r IH]; cbn [max_height fold_right]; intros H; [lia|].
+  fold (max_height r) in *. destruct (Nat.le_gt_cases (max_height r) (height y)).
+  - exists y. split; [left; reflexivity|lia].
+  - destruct IH as (x & Hx & Hh); [lia|]. exists x. split; [right; exact Hx|lia].
+Qed.
+
+(* THE RESULT: for every tree, at any starting level k, with enough fuel *)
+Lemma node_parse : forall t n k caller,
+  (2 * height t <= n)%nat -> o_override caller = false ->
+  (k + Z.of_nat (height t) <= d ->
+     init_dataclass (transform re W n) 0 C caller k (to_val t) = Ok (inst t)) /\
+  (d < k + Z.of_nat (height t) ->
+     raises_parse (init_dataclass (transform re W n) 0 C caller k (to_val t))).
+Proof.
+  induction t as [v kids IH] using tree_ind'. intros n k caller Hn Hov.
+  cbn [height] in Hn. fold (max_height kids) in Hn.
+  destruct n as [|[|n2]]; try lia.
+  cbn [to_val inst height]. fold (max_height kids).
+  destruct (d <? k + 1) eqn:Hk.
+  - split; [lia|]. intros _. rewrite init_too_deep by assumption. eexists; split; reflexivity.
+  - rewrite init_node by assumption.
+    assert (Hov' : o_override o = false) by reflexivity.
+    assert (Hkids : forall x, In x kids ->
+              (k + 1 + Z.of_nat (height x) <= d -> kid_res (S n2) (k + 1) (to_val x) = Ok (inst x)) /\
+              (d < k + 1 + Z.of_nat (height x) -> raises_parse (kid_res (S n2) (k + 1) (to_val x)))).
+    { intros x Hin. rewrite Forall_forall in IH. specialize (IH x Hin n2 (k + 1) o).
+      pose proof (max_height_ge kids x Hin).
+      destruct x as [xv xk]. cbn [to_val]. rewrite kid_res_dict.
+      apply IH; [lia|reflexivity]. }
+    split.
+    + intros Hle.
+      assert (HF : Forall2 (fun x r => kid_res (S n2) (k + 1) x = Ok r) (map to_val kids) (map inst kids)).
+      { apply Forall2_map_in. intros x Hin. apply (Hkids x Hin).
+        pose proof (max_height_ge kids x Hin). lia. }
+      rewrite (list_link_ok n2 (k + 1) _ _ no_errs Hk eq_refl eq_refl HF). reflexivity.
+    + intros Hgt.
+      assert (Hpos : (0 < max_height kids)%nat) by lia.
+      destruct (max_height_attained kids Hpos) as (x & Hx & Hh).
+      assert (HF : Forall (fun y => (exists r, kid_res (S n2) (k + 1) y = Ok r) \/
+                                    raises_parse (kid_res (S n2) (k + 1) y)) (map to_val kids)).
+      { rewrite Forall_forall. intros y Hy. apply in_map_iff in Hy. destruct Hy as (z & <- & Hz).
+        destruct (Hkids z Hz) as [H1 H2].
+        destruct (Z_le_gt_dec (k + 1 + Z.of_nat (height z)) d); [left; eauto|right; apply H2; lia]. }
+      assert (HE : Exists (fun y => raises_parse (kid_res (S n2) (k + 1) y)) (map to_val kids)).
+      { rewrite Exists_exists. exists (to_val x). split; [apply in_map; exact Hx|].
+        apply (Hkids x Hx). lia. }
+      destruct (list_link_fail n2 (k + 1) _ no_errs Hk HF HE) as (s' & e & Hs & Hp).
+      rewrite Hs. cbn [snd]. eexists; split; reflexivity.
+Qed.
+
 End Depth.
+
+Transparent transform.
+
+(* through the public entry point Cls.__from__(data) / Cls( **data) *)
+Lemma node_call re d t fuel : 1 <= d -> (2 * height t <= fuel)%nat ->
+  (Z.of_nat (height t) <= d ->
+     call_dataclass re (node_world (Some d)) fuel 0 None (to_val t) = Ok (inst t)) /\
+  (d < Z.of_nat (height t) ->
+     raises_parse (call_dataclass re (node_world (Some d)) fuel 0 None (to_val t))).
+Proof.
+  intros Hd Hf. unfold call_dataclass. cbn [node_world].
+  replace {| c_fields := c_fields (node_decl (Some d)); c_alias_map := c_alias_map (node_decl (Some d));
+             c_ci_names := c_ci_names (node_decl (Some d)); c_options := c_options (node_decl (Some d));
+             c_dfs := c_dfs (node_decl (Some d)); c_exclude_vars := c_exclude_vars (node_decl (Some d));
+             c_dict_based := c_dict_based (node_decl (Some d)) |} with (node_decl (Some d)) by reflexivity.
+  destruct (node_parse re d Hd t fuel 0 default_options Hf eq_refl) as [H1 H2].
+  split; intros H; [apply H1|apply H2]; lia.
+Qed.
